@@ -325,7 +325,22 @@ func textMutate(r *rand.Rand, doc []byte) []byte {
 			break
 		}
 		i := r.Intn(len(lines))
-		switch r.Intn(11) {
+		switch r.Intn(12) {
+		case 11: // the first record of the document refers to a previous one / is empty
+			for j, l := range lines {
+				if strings.Contains(l, "stack: ---") || strings.HasPrefix(l, "--- Thread") {
+					k := j + 1
+					for k < len(lines) && !strings.HasPrefix(lines[k], "---") {
+						k++
+					}
+					repl := []string{"  [same as previous thread]"}
+					if r.Intn(2) == 0 {
+						repl = nil
+					}
+					lines = append(append(append([]string{}, lines[:j+1]...), repl...), lines[k:]...)
+					break
+				}
+			}
 		case 10: // blank or whitespace-only line near the top (headers and their continuation lines)
 			j := r.Intn(min(len(lines), 6) + 1)
 			ws := []string{"", " ", "\t", "\r", "  \t "}[r.Intn(5)]
